@@ -10,7 +10,7 @@ PROPS = {
     "C10": {"parts": ["e1", "e2"], "level": "model_checking"},
     "C12": {"parts": ["e1", "e2"], "level": "model_checking"},
     "C08": {"parts": ["e1", "e2"], "level": "model_checking"},
-    "C01": {"parts": ["e2"], "level": "translation_validation"},
+    "C01": {"parts": ["e1", "e2"], "level": "translation_validation"},
     "C07": {"parts": ["e2"], "level": "translation_validation"},
     "C11": {"parts": ["e2"], "level": "translation_validation"},
 }
@@ -45,6 +45,7 @@ def run_property(prop):
         o = engine_e1.run(prop)
         all_results += o["results"]
         inconclusive += o["inconclusive"]
+        violations += o.get("violations", [])
         crate_of.update(o["crate_of"])
         tools = o["tools"] or tools
     for part in spec["parts"]:
